@@ -163,16 +163,28 @@ func (p *Parser) parseWithRecovery(tokens []token.Token) ([]ast.Statement, []err
 	statements := make([]ast.Statement, 0, 8)
 	errors := make([]error, 0, 4)
 
+	// unterminatedEnd is the position right after the last accepted statement
+	// when no semicolon followed it, -1 otherwise.
+	unterminatedEnd := -1
+
 	for p.currentPos < len(tokens) && !p.isType(models.TokenTypeEOF) {
 		// Skip semicolons between statements
 		if p.isType(models.TokenTypeSemicolon) {
 			p.advance()
+			unterminatedEnd = -1
 			continue
 		}
 
 		stmtStartPos := p.currentPos
 		stmt, err := p.parseStatement()
 		if err != nil {
+			if unterminatedEnd == stmtStartPos && len(statements) > 0 {
+				// The previous statement ran straight into this error without a
+				// semicolon ("SELECT a FROM t x y"): it was only a prefix of a
+				// malformed statement, which strict parsing rejects as a whole.
+				statements = statements[:len(statements)-1]
+			}
+			unterminatedEnd = -1
 			// Create a ParseError with position info, preserving original error
 			loc := p.currentLocation()
 			pe := &ParseError{
@@ -198,6 +210,9 @@ func (p *Parser) parseWithRecovery(tokens []token.Token) ([]ast.Statement, []err
 			// Optionally consume semicolon after statement
 			if p.isType(models.TokenTypeSemicolon) {
 				p.advance()
+				unterminatedEnd = -1
+			} else {
+				unterminatedEnd = p.currentPos
 			}
 		}
 	}
